@@ -293,3 +293,11 @@ Proof.
     destruct (is_pos (irun h)); [destruct (md_price _)|]; reflexivity.
   - rewrite app_nil_r. exact IH.
 Qed.
+
+(* ---- receive times never matter ------------------------------------------------------------------ *)
+
+Lemma restamp_invariant h h' : same_modulo_received h h' -> srun h = srun h'.
+Proof.
+  intros H. unfold srun. f_equal. induction H as [|a b l l' Hab _ IH]; [reflexivity|].
+  cbn [map]. rewrite Hab, IH. reflexivity.
+Qed.
